@@ -319,6 +319,20 @@ class AST2SCFGTransformer:
 
         """
         for node in tree:
+            if (
+                self.current_block.is_return()
+                or self.current_block.is_break()
+                or self.current_block.is_continue()
+            ):
+                # Whatever follows a return, break or continue in the same
+                # suite is unreachable. It must not be appended to the
+                # terminated block (the sealing rules look at the last
+                # instruction), so seal that block now and continue in a
+                # fresh block that nothing jumps to.
+                dead_index = self.block_index
+                self.block_index += 1
+                self.seal_block(dead_index)
+                self.add_block(dead_index)
             self.handle_ast_node(node)
 
     def handle_ast_node(self, node: type[ast.AST] | ast.stmt) -> None:
